@@ -20,6 +20,7 @@
 import contextlib
 import copy
 import json
+import os
 import pathlib
 import random
 import shutil
@@ -37,7 +38,7 @@ CHUNK = 5
 # how a call is made and what it finds besides the files of the model (all values lie inside the property's quantifier:
 # "path handed to the reader", keep_original, fault sequences; none changes the sequence of file operations)
 VAR0 = {"entry": "data",        # Reader(<data file>) | "meta": Reader(<metadata file>) when that resolves to the wanted form
-        "pathtype": "path",     # pathlib.Path | "str"
+        "pathtype": "path",     # pathlib.Path | "str" | "rel": a relative str, the working directory being the parent directory
         "obj": "open",          # Reader state at the call: "open" | "unopened" (open=False) | "closed"
         "keeparg": "explicit",  # keep_original=True passed | "default": left out
         "scratchdir": "exists",  # scratch directory there | "missing": neither it nor its parent exists (all scratch names absent)
@@ -51,7 +52,7 @@ VAR0 = {"entry": "data",        # Reader(<data file>) | "meta": Reader(<metadata
 
 
 def draw_var(vr, **fixed):
-    v = dict(VAR0, entry=vr.choice(["data", "meta"]), pathtype=vr.choice(["path", "str"]),
+    v = dict(VAR0, entry=vr.choice(["data", "meta"]), pathtype=vr.choice(["path", "str", "path", "str", "rel"]),
              obj=vr.choice(["open", "open", "unopened", "closed"]), keeparg=vr.choice(["explicit", "default"]),
              scratchdir=vr.choice(["exists", "missing"]), siblings=vr.random() < 0.5, leftover=vr.randrange(3),
              linked=vr.random() < 0.3)
@@ -214,7 +215,8 @@ def instrumented(world, d, opname, fail_at, here=False):
             raise Injected(label)
 
     def mine(path):
-        return str(path) == base or str(path).startswith(base + "/")
+        path = os.path.abspath(str(path))
+        return path == base or path.startswith(base + "/")
 
     orig = dict(open=builtins.open, cc=mtscomp.Writer._compress_chunk, dc=mtscomp.Reader._decompress_chunk,
                 cm=mtscomp.Writer.get_cmeta, ck=mtscomp.check, rn=pathlib.Path.rename, ul=pathlib.Path.unlink,
@@ -308,6 +310,8 @@ def make_reader(p, opname, var):
             path = p["meta"]
     if var["pathtype"] == "str":
         path = str(path)
+    elif var["pathtype"] == "rel":
+        path = os.path.relpath(path)
     sr = spikeglx.Reader(path, open=False) if var["obj"] == "unopened" else spikeglx.Reader(path)
     if var["obj"] == "closed":
         sr.close()
@@ -327,6 +331,13 @@ def invoke(sr, world, p, opname, keep, var):
 
 def one_call(world, d, st, opname, keep, fail_at, var=None):
     """returns a trace record (or None if the call has fewer than fail_at+1 operations)"""
+    if (var or {}).get("pathtype") != "rel":
+        return _one_call(world, d, st, opname, keep, fail_at, var)
+    with contextlib.chdir(Path(d).parent):      # the reader is given a path relative to the working directory
+        return _one_call(world, d, st, opname, keep, fail_at, var)
+
+
+def _one_call(world, d, st, opname, keep, fail_at, var=None):
     var = dict(VAR0, **(var or {}))
     here = bool(var["here"])
     if here and opname != "scratch":
@@ -416,6 +427,13 @@ def one_call(world, d, st, opname, keep, fail_at, var=None):
 
 def resolve_record(world, d, st, var=None):
     """Reader(path) for the three entry paths of one directory"""
+    if (var or {}).get("pathtype") != "rel":
+        return _resolve_record(world, d, st, var)
+    with contextlib.chdir(Path(d).parent):
+        return _resolve_record(world, d, st, var)
+
+
+def _resolve_record(world, d, st, var=None):
     import spikeglx
     var = dict(VAR0, **(var or {}))
     p = world.setup(d, st, siblings=var["siblings"], scratchdir=var["scratchdir"], linked=var["linked"])
@@ -425,7 +443,7 @@ def resolve_record(world, d, st, var=None):
             res[e] = "skip"
             continue
         try:
-            sr = spikeglx.Reader(str(p[e]) if var["pathtype"] == "str" else p[e])
+            sr = spikeglx.Reader({"str": str(p[e]), "rel": os.path.relpath(p[e])}.get(var["pathtype"], p[e]))
             fb = sr.file_bin
             if fb is None:
                 res[e] = "none"
